@@ -106,6 +106,9 @@ fn drive(rec: &dyn Recorder, log: &Log, name: &str, kind: usize) -> Vec<String> 
             let h = rec.register_histogram(&key, &META);
             h.record(2.5);
             h.record_many(1.0, 2);
+            // the boundary counts of the batched entry point: nothing, and exactly one
+            h.record_many(7.0, 0);
+            h.record_many(8.0, 1);
         }
     }
     log.lock().unwrap().clone()
@@ -118,7 +121,7 @@ fn expect(id: usize, name: &str, kind: usize) -> Vec<String> {
     match kind {
         0 => vec![format!("{}|describe_counter|{}|Some(\"bytes\")|dc", id, name), format!("{}|register_counter|{}|{}", id, k, m), format!("{}|inc|{}|3", id, name), format!("{}|abs|{}|9", id, name)],
         1 => vec![format!("{}|describe_gauge|{}|None|dg", id, name), format!("{}|register_gauge|{}|{}", id, k, m), format!("{}|ginc|{}|1.5", id, name), format!("{}|gdec|{}|0.5", id, name), format!("{}|gset|{}|4", id, name)],
-        _ => vec![format!("{}|describe_histogram|{}|Some(\"seconds\")|dh", id, name), format!("{}|register_histogram|{}|{}", id, k, m), format!("{}|rec|{}|2.5", id, name), format!("{}|rec|{}|1", id, name), format!("{}|rec|{}|1", id, name)],
+        _ => vec![format!("{}|describe_histogram|{}|Some(\"seconds\")|dh", id, name), format!("{}|register_histogram|{}|{}", id, k, m), format!("{}|rec|{}|2.5", id, name), format!("{}|rec|{}|1", id, name), format!("{}|rec|{}|1", id, name), format!("{}|rec|{}|8", id, name)],
     }
 }
 
